@@ -53,6 +53,7 @@ namespace sim
    bool job_from_text( const std::string& text, Job& j, std::string& err );
 
    // minimise a failing job while the same oracle id keeps failing
-   Job shrink_job( const Job& j, const std::string& oracle, unsigned& reruns );
+   // force_fork: evaluate every candidate in a forked child (some candidate of a non-fatal violation may end the process)
+   Job shrink_job( const Job& j, const std::string& oracle, unsigned& reruns, bool force_fork = false );
 
 }  // namespace sim
